@@ -97,6 +97,12 @@ func NewPositionRange(lines []string, val *yaml.Node, minColumn int) (offsets Po
 	need := val.Value[needIndex]
 	lineIndex := val.Line
 	columnIndex := val.Column
+	if val.Style&(yaml.LiteralStyle|yaml.FoldedStyle) != 0 {
+		// Block scalar content starts on the line after the | or > indicator,
+		// nothing on the indicator line (like a trailing comment) is part of the value.
+		lineIndex++
+		columnIndex = max(minColumn-1, 1)
+	}
 
 	for lineIndex <= len(lines) {
 		// Append new line but only if we already have any tokens.
